@@ -1440,10 +1440,9 @@ static gd_entry_t *_GD_ParseArray(DIRFILE *restrict D, int string,
       }
     }
 
-    if (n_cols < MAX_IN_COLS)
-      break;
-
-    /* get more tokens */
+    /* get more tokens: the caller may have handed us only part of a full
+     * token array (/META parent child ...), so ask the tokeniser whether
+     * anything is left instead of counting */
     free(*outstring);
     n_cols = _GD_Tokenise(D, p, tok_pos, outstring, &tok_pos, MAX_IN_COLS,
         in_cols);
@@ -2385,8 +2384,13 @@ static int _GD_ParseDirective(DIRFILE *D, struct parser_state *restrict p,
           _GD_SetError(D, GD_E_FORMAT, GD_E_FORMAT_N_TOK, p->file, p->line,
               NULL);
         else
-          _GD_ParseFieldSpec(D, p, n_cols - 2, in_cols + 2, strlen(in_cols[2]),
+        {
+          /* the field specification starts at the base of the token array,
+           * which _GD_ParseArray refills when the line has more elements */
+          memmove(in_cols, in_cols + 2, (n_cols - 2) * sizeof(in_cols[0]));
+          _GD_ParseFieldSpec(D, p, n_cols - 2, in_cols, strlen(in_cols[0]),
               E, me, 0, 1, outstring, tok_pos);
+        }
       }
       break;
     case 'N':
